@@ -16,7 +16,7 @@ RULE = ("small_scope: every ordered pair (A,B) of multisets of positive-length i
         "the fingerprint of its input tables and parameters; non-trivial when at least one operand is non-empty.")
 ASSUMPTIONS = [
     "inputs are sorted tables of positive-length intervals (the library's documented precondition); other calls are counted out-of-domain",
-    "at exact .5 ties of length/avg either rounding (Python round or half-up) is accepted for subdivide",
+    "round(length/avg) is read literally as Python's round: an exact .5 tie goes to the even neighbour (2.5 -> 2, 3.5 -> 4)",
     "merge(bp != 0) is judged against the documented grouping rule (join while next.start - running max end <= -bp)",
 ]
 BUDGET_S = {"quick": 240, "thorough": 1500}
@@ -136,9 +136,124 @@ def case_random(run, i):
                  sample={"a": a_rows[:8], "b": b_rows[:8], "avg": avg, "min": mn, "bp": bp} if i % 499 == 0 else None)
 
 
+def _n_ties(tier):
+    return 160 if tier == "quick" else 4000
+
+
+def case_ties(run, i):
+    """Regions whose length is exactly (k + 1/2) * avg -- single rows, and rows
+    that only reach that length after merging (abutting / overlapping / nested)."""
+    rng = run.rng("ties", i)
+    avg = 2 * int(rng.choice([1, 1, 2, 3, 25, 50, 500, 4321]))
+    rows, pos = [], int(rng.integers(0, 50))
+    for _ in range(int(rng.integers(1, 7))):
+        k = int(rng.integers(0, 9))
+        span = k * avg + avg // 2 if rng.random() < 0.8 else int(rng.integers(1, 9 * avg))
+        s, e = pos, pos + span
+        shape = int(rng.integers(0, 4))
+        if shape == 0 or span < 3:
+            rows.append(("chr1", s, e))
+        elif shape == 1:      # two abutting rows
+            m = int(rng.integers(s + 1, e))
+            rows += [("chr1", s, m), ("chr1", m, e)]
+        elif shape == 2:      # overlapping rows
+            m1, m2 = sorted(int(x) for x in rng.integers(s + 1, e, 2))
+            rows += [("chr1", s, m2), ("chr1", m1, e)]
+        else:                 # nested row
+            m1, m2 = sorted(int(x) for x in rng.integers(s, e + 1, 2))
+            rows += [("chr1", s, e)] + ([("chr1", m1, m2)] if m2 > m1 else [])
+        pos = e + int(rng.integers(1, 3 * avg))
+    rows.sort()
+    run.begin_case("ties", i, cls="ties")
+    a = make_ga(rows)
+    _safe(a.subdivide, avg, int(rng.choice([0, 1, avg // 2, avg])))
+    run.end_case(fp=rt.fingerprint([rows, avg], 12), nontrivial=True, sample={"a": rows, "avg": avg} if i % 97 == 0 else None)
+
+
+def _n_derived(tier):
+    return 480 if tier == "quick" else 12000
+
+
+def _derive(rng, a, how):
+    """A table reached through the library's own selection / combination
+    methods (or carrying the caller's row labels), as in a pipeline."""
+    import numpy as np
+    n = len(a)
+    if how == "mask" and n:
+        keep = rng.random(n) < 0.7
+        if n > 1:
+            keep[0] = False
+        return a[keep] if keep.any() else a
+    if how == "chunk":
+        parts = [sub for _c, sub in a.by_chromosome()]
+        return parts[-1] if parts else a
+    if how == "labels" and n:
+        out = a.copy()
+        out.data.index = np.asarray(rng.permutation(n)) + int(rng.choice([0, 0, 7, 1000]))
+        return out
+    if how == "dup-labels" and n:
+        out = a.copy()
+        out.data.index = np.asarray(rng.integers(0, max(1, n // 2), n))
+        return out
+    if how == "merged":
+        return a.merge()
+    if how == "concat" and n:
+        return a.concat([a[rng.random(n) < 0.5], a.copy()]) if hasattr(a, "concat") else a
+    if how == "filter":
+        chroms = list(dict.fromkeys(a.chromosome))
+        return a.filter(chromosome=chroms[-1]) if chroms else a
+    if how == "in-range" and n:
+        c = a.chromosome.iloc[-1]
+        return a.in_range(c, int(a.start.min()), int(a.end.max()), mode="outer")
+    return a
+
+
+DERIVATIONS = ("mask", "chunk", "labels", "dup-labels", "merged", "concat", "filter", "in-range")
+
+
+def case_derived(run, i):
+    """The same operations on tables that are the result of earlier operations:
+    row labels that are not 0..n-1, per-chromosome chunks, merged/concatenated
+    tables.  The monitors compare rows by position, so any dependence on the
+    labels shows as a wrong result."""
+    rng = run.rng("derived", i)
+    chroms_all = ["chr1", "chr2", "chr10", "chrX"][: int(rng.integers(1, 5))]
+    maxc = int(rng.choice([30, 1000, 10**6]))
+    extras = tuple(c for c in ("gene", "weight") if rng.random() < 0.5)
+    a_rows = with_extras(rng, random_intervals(rng, int(rng.integers(2, 41)), maxc, chroms_all), extras)
+    b_rows = with_extras(rng, random_intervals(rng, int(rng.integers(0, 41)), maxc, chroms_all), extras)
+    how_a, how_b = DERIVATIONS[i % len(DERIVATIONS)], DERIVATIONS[(i // len(DERIVATIONS)) % len(DERIVATIONS)]
+    run.begin_case("derived", i, cls=f"derived:{how_a}")
+    try:
+        a, b = _derive(rng, make_ga(a_rows, extras), how_a), _derive(rng, make_ga(b_rows, extras), how_b)
+    except Exception:
+        a = b = None
+    if a is None:
+        return run.end_case(fp=f"d{i}", nontrivial=False)
+    _safe(a.subtract, b)
+    _safe(a.intersection, b, mode="trim")
+    _safe(a.merge, bp=int(rng.choice([-1, 0, 0, 2])))
+    _safe(a.flatten)
+    span = max([int(x) for x in (a.end - a.start)] + [1])
+    avg = int(rng.choice([1, 2, 3, max(1, span // 3), max(1, span // 2), span]))
+    _safe(a.subdivide, avg, int(rng.integers(0, avg + 1)))
+    bp = int(rng.choice([-2000, -50, -3, -1, 0, 1, 7, 500]))
+    sizes = {c: max([r[2] for r in a_rows if r[0] == c] + [1]) + int(rng.integers(0, 600)) for c in chroms_all}
+    # distinct sizes per chromosome, so a size taken from another row's chromosome shows
+    for k, c in enumerate(chroms_all):
+        sizes[c] += 1000 * k * int(rng.integers(0, 3))
+    _safe(a.resize_ranges, bp, sizes)
+    _safe(a.resize_ranges, bp)
+    _safe(a.total_range_size)
+    run.end_case(fp=rt.fingerprint([a_rows, b_rows, how_a, how_b, avg, bp], 12), nontrivial=True,
+                 sample={"a": a_rows[:8], "how": [how_a, how_b], "avg": avg, "bp": bp} if i % 499 == 0 else None)
+
+
 WORKLOADS = {
     "small_scope": (_n_small, case_small),
     "random": (_n_random, case_random),
+    "ties": (_n_ties, case_ties),
+    "derived": (_n_derived, case_derived),
 }
 
 _Q = {
